@@ -58,7 +58,10 @@ def gen_circular(rng):
                 seq[n - 5:] = x * 5
                 seq[:5] = x * 5
         else:
-            cs.append(("AvoidChanges", kw(location=rloc(rng, n, strands=(0,), minlen=3))))
+            if rng.random() < 0.4:
+                cs.append(("AvoidChanges", kw(location=rloc(rng, n, strands=(0,), minlen=8), max_edits=rng.choice([1, 2]))))
+            else:
+                cs.append(("AvoidChanges", kw(location=rloc(rng, n, strands=(0,), minlen=3))))
     out = []
     for c in cs:
         if c not in out:
@@ -124,6 +127,11 @@ def impl_case(case):
                 if d[0] == "AvoidPattern" and whole(kwd, len(s))[0] and set(kwd["pattern"]) <= set("ACGT"):
                     if wrap_occ(s, kwd["pattern"], whole(kwd, len(s))[1]):
                         bad.append("pattern %s occurs in the circular sequence (strand %s)" % (kwd["pattern"], whole(kwd, len(s))[1]))
+                if d[0] == "AvoidChanges" and kwd.get("max_edits"):
+                    a_, b_ = kwd["location"][0], kwd["location"][1]
+                    edits = sum(1 for i in range(a_, b_) if start[i] != s[i])
+                    if edits > kwd["max_edits"]:
+                        bad.append("%d edits in the region %d-%d protected by AvoidChanges(max_edits=%d)" % (edits, a_, b_, kwd["max_edits"]))
                 if d[0] == "EnforceGCContent" and kwd["location"] is None:
                     w = kwd["window"]
                     ext = s + s[:w - 1]
